@@ -579,6 +579,9 @@ class Server(BaseComponent):
         else:
             self._sock = None
 
+        if sock in self._closeq:
+            self._closeq.remove(sock)
+
         if sock in self.__starttls:
             self.__starttls.remove(sock)
 
